@@ -189,6 +189,12 @@ TABLE.update({
     "../seeded/C04-6/patch.diff": ("box", "contracts.c12:bidi:bidi_arg_sets", None),
     "c05_latch_feedback_on_red.diff": ("contracts.c05", "_setup_latch_feedback", None),
 })
+TABLE.update({
+    "cgraph_get_source_returns_last.diff": ("box", "contracts.cgraph:graph_contracts[get_source]:graph_arg_sets(get_source)", None),
+    "cgraph_set_source_replaces.diff": ("box", "contracts.cgraph:graph_contracts[set_source]:graph_arg_sets(set_source)", None),
+    "cgraph_iter_sinks_live_list.diff": ("box", "contracts.cgraph:graph_contracts[iter_sinks]:graph_arg_sets(iter_sinks)", None),
+    "cgraph_create_placement_drops_extras.diff": ("box", "contracts.cgraph:plan_contracts[create_and_add_placement]:plan_arg_sets(create_and_add_placement)", None),
+})
 BOX_RUNNER = r'''
 import sys, importlib
 sys.path.insert(0, %r)
@@ -198,8 +204,12 @@ from bounded.contract_enum import run_contract_enum
 if __name__ == "__main__":
     modname, cname, aname = sys.argv[2].split(":")[:3]
     mod = importlib.import_module(modname)
-    args = getattr(mod, aname)()
-    br = run_contract_enum("box", getattr(mod, cname), args, "selftest")
+    import re
+    m = re.match(r"(\w+)\((\w+)\)$", aname)
+    args = getattr(mod, m.group(1))(m.group(2)) if m else getattr(mod, aname)()
+    m = re.match(r"(\w+)\[(\w+)\]$", cname)
+    contract = getattr(mod, m.group(1))[m.group(2)] if m else getattr(mod, cname)
+    br = run_contract_enum("box", contract, args, "selftest")
     if hasattr(mod, "cleanup"):
         mod.cleanup()
     print(br.error)
